@@ -1,0 +1,71 @@
+package e2e
+
+import (
+	"sync"
+	"testing"
+	"time"
+
+	streamsql "github.com/rulego/streamsql"
+	"github.com/stretchr/testify/assert"
+	"github.com/stretchr/testify/require"
+)
+
+// runParenAggregate emits three rows of one group into a counting window of three
+// and returns the first row delivered to the sink.
+func runParenAggregate(t *testing.T, sql string) map[string]any {
+	t.Helper()
+	ssql := streamsql.New()
+	require.NoError(t, ssql.Execute(sql), sql)
+	defer ssql.Stop()
+	var mu sync.Mutex
+	var out []map[string]any
+	ssql.AddSink(func(rows []map[string]any) {
+		mu.Lock()
+		defer mu.Unlock()
+		out = append(out, rows...)
+	})
+	for _, r := range []map[string]any{
+		{"k": "b", "v": 1},
+		{"k": "b", "v": 2},
+		{"k": "b", "v": 3},
+	} {
+		ssql.Emit(r)
+	}
+	deadline := time.Now().Add(2 * time.Second)
+	for time.Now().Before(deadline) {
+		mu.Lock()
+		n := len(out)
+		mu.Unlock()
+		if n > 0 {
+			break
+		}
+		time.Sleep(10 * time.Millisecond)
+	}
+	mu.Lock()
+	defer mu.Unlock()
+	require.Len(t, out, 1, sql)
+	return out[0]
+}
+
+// Parentheses around a whole select item do not remove the item from the result.
+func TestSelect_ParenthesizedAggregate(t *testing.T) {
+	const tail = " FROM stream GROUP BY k, CountingWindow(3)"
+	for item, want := range map[string]any{
+		"(sum(v)) AS x":                6,
+		"((sum(v))) AS x":              6,
+		"( ( sum(v) ) ) AS x":          6,
+		"(sum(v)) + 0 AS x":            6,
+		"(sum(v*2)) AS x":              12,
+		"((sum(v)) + (count(*))) AS x": 9,
+		"(upper(k)) AS x":              "B",
+	} {
+		row := runParenAggregate(t, "SELECT k, "+item+", count(*) AS c"+tail)
+		assert.EqualValues(t, want, row["x"], item)
+		assert.EqualValues(t, 3, row["c"], item)
+		assert.Equal(t, "b", row["k"], item)
+	}
+
+	// Without an alias the column is named by the item as written
+	row := runParenAggregate(t, "SELECT k, (sum(v))"+tail)
+	assert.EqualValues(t, 6, row["(sum(v))"])
+}
